@@ -4,13 +4,16 @@
   Everything here is about the MODEL (`Rbgp.Wire.Model`, `Rtr`, `Stream`) of packet/src/bgp.rs
   `PeerCodec::try_parse`/`parse_message`, packet/src/rpki.rs `RtrCodec::decode` and packet/src/bfd.rs
   `Message::decode`, for EVERY byte string, every negotiated codec (families, AddPath, 2- or 4-octet AS,
-  extended message) and BOTH arithmetic profiles.  The NLRI decoders of the address families that are not
-  transcribed (everything except IPv4/IPv6 unicast+multicast) are a parameter `dec` with the single
-  hypothesis `dec.NP` ("never panics"); those families are explored on the real code only.
+  extended message) and BOTH arithmetic profiles.  The NLRI decoders of the address families other than IPv4/IPv6
+  unicast+multicast are a parameter `dec` with the single hypothesis `dec.NP` ("never panics").  Phase 2
+  (`Rbgp.Wire.Nlri2`, `Nlri3`) instantiates it: `decP3 p rest` decodes VPNv4/VPNv6, labeled IPv4/IPv6 (with the MPLS
+  label stack and the route distinguisher), RTC, SR-policy, EVPN and flowspec (+VPN) NLRI by transcription and is
+  proved panic-free (`nlri_phase2_total`); only `rest` (MUP, BGP-LS) remains a hypothesis, explored on the real code.
 
   Proofs are corollaries of `Rbgp.Wire.Proofs` / `Rbgp.Wire.StreamProofs`.
 -/
 import Rbgp.Wire.StreamProofs
+import Rbgp.Wire.Nlri3Proofs
 namespace Rbgp.Wire.Props
 open Rbgp.Wire Rbgp.Wire.Spec
 
@@ -21,6 +24,17 @@ open Rbgp.Wire Rbgp.Wire.Spec
 theorem check_run_ok_bgp (dec : HypDec) (hd : dec.NP) (p : Profile) (c : Codec) (chunks : List Bytes) :
     checkBgpCase c.maxLen chunks ((bgpStream dec p c [] chunks).map srecOf) = .ok :=
   check_bgp_ok hd p c chunks
+
+/-- the NLRI decoders transcribed in phase 2 (VPNv4/v6, labeled v4/v6 + MPLS label stack + RD, RTC, SR policy, EVPN
+    types 1-5, flowspec v4/v6 and their VPN variants) never panic, in either profile; `rest` stands for the families
+    still outside the model (MUP, BGP-LS) -/
+theorem nlri_phase2_total (p : Profile) (rest : HypDec) (hr : rest.NP) : (decP3 p rest).NP :=
+  decP3_NP p hr
+
+/-- ... so the master theorem holds with them in place of the hypothesis -/
+theorem check_run_ok_bgp_phase2 (rest : HypDec) (hr : rest.NP) (p : Profile) (c : Codec) (chunks : List Bytes) :
+    checkBgpCase c.maxLen chunks ((bgpStream (decP3 p rest) p c [] chunks).map srecOf) = .ok :=
+  check_bgp_ok (decP3_NP p hr) p c chunks
 
 /-- RTR -/
 theorem check_run_ok_rtr (chunks : List Bytes) :
@@ -142,5 +156,31 @@ theorem s6_repaired_rejects (p : Profile) : tryParse noHypDec p codecV4 s6 = .er
 example : rtrDecode [1, 2, 0, 0, 0, 0, 0, 0] = .err := by decide
 example : rtrDecode [1, 9, 0, 0, 0, 0, 0, 8] = .pdu (.unsupported 9) 8 := by decide
 example : rtrDecode [1, 2, 0, 0, 0, 0, 0, 8, 1] = .pdu .resetQuery 8 := by decide
+
+/-! ## phase 2 witnesses (GoBGP vectors of the repo's own tests) -/
+
+/-- vpn.rs GOBGP_VPNV4_LABEL_STACK: labels 100, 200, RD 0:65000:100, 10.0.1.0/24 -/
+example : decP2 .debug noHypDec FAM_VPN4 false true
+    [0x88, 0x00, 0x06, 0x40, 0x00, 0x0c, 0x81, 0x00, 0x00, 0xfd, 0xe8, 0x00, 0x00, 0x00, 0x64, 0x0a, 0x00, 0x01] =
+    .ok [⟨0, 24, [0, 0, 100, 0, 0, 200, 0x00, 0x00, 0xfd, 0xe8, 0x00, 0x00, 0x00, 0x64, 10, 0, 1, 0]⟩] := by rfl
+
+/-- a label stack that never ends (no bottom-of-stack bit) is an error, not a panic -/
+example : decP2 .release noHypDec FAM_MPLS4 false true [0x30, 0, 0, 0, 0, 0, 0] = .err ⟨3, 1, []⟩ := by rfl
+
+/-- labeled.rs GOBGP_V4_UNREACH: the 3-byte compatibility field is skipped on withdraw -/
+example : decP2 .debug noHypDec FAM_MPLS4 false false [0x30, 0x80, 0x00, 0x00, 0x0a, 0x00, 0x01] =
+    .ok [⟨0, 24, [0, 0, 0, 10, 0, 1, 0]⟩] := by rfl
+
+/-- evpn.rs GOBGP_TYPE1_WITH_LABEL -/
+example : decP3 .debug noHypDec FAM_EVPN false true
+    [0x01, 0x19, 0, 2, 0, 0, 0, 5, 0, 6, 0, 0, 0, 0, 0, 0, 0, 0, 0, 0, 0, 0, 0, 3, 0, 0, 0xc8] =
+    .ok [⟨0, 1, [0, 2, 0, 0, 0, 5, 0, 6, 0, 0, 0, 0, 0, 0, 0, 0, 0, 0, 0, 0, 0, 3, 0, 0, 0xc8]⟩] := by rfl
+
+/-- flowspec: destination prefix 10.0.0.0/24, protocol == 6 -/
+example : decP3 .release noHypDec FAM_FS4 false true [0x08, 0x01, 0x18, 10, 0, 0, 0x03, 0x81, 0x06] =
+    .ok [⟨0, 2, [1, 24, 10, 0, 0, 0, 3, 0x81, 0, 0, 0, 0, 0, 0, 0, 6]⟩] := by rfl
+
+/-- a flowspec operator list without end-of-list bit runs to the end of the NLRI: an error, not a panic -/
+example : decP3 .debug noHypDec FAM_FS4 false true [0x03, 0x03, 0x01, 0x06] = .err ⟨3, 1, []⟩ := by rfl
 
 end Rbgp.Wire.Props
